@@ -181,6 +181,13 @@ def clone(v, memo):
         return r
     if isinstance(v, tuple):
         return tuple(clone(x, memo) for x in v)
+    if isinstance(v, set):
+        if id(v) in memo:
+            return memo[id(v)]
+        r = set()
+        memo[id(v)] = r
+        r.update(clone(x, memo) for x in v)
+        return r
     if isinstance(v, PObj):
         if id(v) in memo:
             return memo[id(v)]
@@ -189,6 +196,34 @@ def clone(v, memo):
         r.attrs = {k: clone(x, memo) for k, x in v.attrs.items()}
         return r
     return v
+
+
+def inline_method(qual):
+    """a method model that executes the REAL body of `qual` (same source file) on the receiver: for helpers that the
+    function under contract calls and that are under contract themselves (their contracts decide them; here their
+    code simply runs)"""
+    def h(ex, st, o, pos, kw, n):
+        fn = ex.find(qual)
+        params = [a.arg for a in fn.args.args]
+        defaults = [ast.literal_eval(d) for d in fn.args.defaults]
+        vals = dict(zip(params[len(params) - len(defaults):], defaults))
+        vals.update(zip(params, [o] + list(pos)))
+        vals.update(kw)
+        if set(vals) != set(params):
+            raise PyNotSupported("inlined call of %s: arguments" % qual)
+        saved = dict(st.env)
+        st.env.update(vals)
+        for out in ex.exec_block(fn.body, st):
+            out.st.env = {k: v for k, v in out.st.env.items() if k in saved}
+            for k, v in saved.items():
+                out.st.env.setdefault(k, v)
+            if out.kind == 'raise':
+                yield out.st, out.value
+            elif out.kind in ('return', 'next'):
+                yield out.st, (out.value if out.kind == 'return' else None)
+            else:
+                raise PyNotSupported("break/continue out of a function")
+    return h
 
 
 class PyContract:
@@ -1249,6 +1284,10 @@ class PyExec:
             return
         if isinstance(o, list) and name == 'append':
             o.append(pos[0])
+            yield st, None
+            return
+        if isinstance(o, set) and name == 'add' and not is_sym(pos[0]):
+            o.add(pos[0])
             yield st, None
             return
         if isinstance(o, list) and name == 'insert' and isinstance(pos[0], int):
